@@ -134,6 +134,21 @@ CHECKS = {
               'exact arithmetic within 1e-12; exp not re-derived); bond length rounding compared within 6e-6; negative '
               'minimum_force is a known finding outside the statement (F11).'),
         technique='Coq proof (case analysis over the threshold chain with lra over Q, bounded-walk characterisation, set-of-pairs theorem by induction over the upper triangle) + in-Coq correspondence with kernel outputs as exact rationals'),
+    'C18': dict(
+        category='proof',
+        text=('Coq theorems about a model of VirtualSiteCreator.add_virtual_sites and of the contact loop of '
+              'ComputeStructuralGoBias: exactly one virtual site per backbone particle, in order, constructed from it, '
+              'with fresh pairwise-distinct keys appended after all atoms, same residue identity and shared position, '
+              'zero mass/charge, type <moltype>_<resid> (unique when backbone residue numbers are); the '
+              'store-or-emit loop over the contact map emits a contact exactly when it passes the filters and its reverse '
+              'occurred among the earlier passing contacts (invariant proof, for contact lists without repeated keys); '
+              'the separation filter is symmetric (walk reversal). Tie: the real processors on generated coarse-grained '
+              'molecules and contact maps; atoms, virtual_sitesn, atomtypes, nonbond_params (sigma through (d/sigma)^6 = 2) '
+              'and exclusions compared with the model and with the statement evaluated in Coq.'),
+        design_ref='DESIGN.md section 5, C18',
+        note=('Trusted: Coq kernel + vm_compute; backbone distances from numpy shipped as exact rationals; residue '
+              'reconstruction in the harness; GoPipeline glue and contact-map file reading are not modelled.'),
+        technique='Coq proof (list induction for the sites; loop invariant relating the stored list to all earlier eligible contacts; walk reversal) + in-Coq correspondence'),
 }
 NOT_APPLICABLE = {}
 PENDING_REASON = 'not yet claimed: model and proofs for this property are still being built (see DESIGN.md staging); no check is registered so nothing is asserted'
